@@ -148,6 +148,8 @@ class C18(Prop):
                     return {"hand": rng.sample(rest, 10), "opp": opp}
             return {"hand": gin.dense_cards(rng, 10), "opp": []}
         if kind == "ricky":
+            if rng.random() < 0.5:
+                return {"hand": gin.ricky_made_hand(rng)}
             return {"hand": gin.dense_cards(rng, rng.choice([7, 8]))}
         if kind == "canon":
             return {"hand": dense_hand(rng, rng.choice([2, 3, 4, 5, 7]))}
@@ -309,7 +311,12 @@ class C20(Prop):
             nh = rng.randrange(0, 12); nc = rng.randrange(0, 14)
             if nh * nc > 52:
                 nc = 52 // max(1, nh)
-            yield {"helper": helper, "nh": nh, "nc": nc, "n": rng.randrange(0, 31), "mode": rng.randrange(5), "pseed": rng.randrange(1 << 30)}
+            c = {"helper": helper, "nh": nh, "nc": nc, "n": rng.randrange(0, 31), "mode": rng.randrange(5), "pseed": rng.randrange(1 << 30)}
+            if rng.random() < 0.35:
+                h2 = rng.choice(["hands", "gin", "rummy", "ricky", "deck"])
+                nh2 = rng.randrange(1, 10); nc2 = rng.randrange(1, 6)
+                c["hold"] = {"helper": h2, "nh": nh2, "nc": nc2, "n": rng.randrange(1, 25)}
+            yield c
 
     def exhaustive(self, tier, shard, nshards):
         if tier != "thorough":
@@ -341,29 +348,51 @@ class C20(Prop):
                     raise AttributeError(name)
                 return getattr(random.Random(case.get("pseed", 0)), name)
         self.du.random = Fake()
-        out = {}
-        try:
-            h = case["helper"]
+
+        def deal(c):
+            h = c["helper"]
             if h == "deck":
                 dk = self.du.random_deck()
-                raw = [dk]
-                out["deck"] = list(dk)
-            elif h == "hands":
-                rest, hands = self.pu.deal_random_hands(case["nh"], case["nc"])
-                raw = [rest, hands]
-                out["rest"] = list(rest); out["hands"] = [list(x) for x in hands]
-            else:
-                g = self.gu.new_game(case["n"]) if h == "gin" else (self.ru.deal_new_game() if h == "rummy" else self.ku.deal_new_game())
-                raw = g
-                out = {k: list(v) for k, v in g.items()}
-            # the caller owns what a dealing helper returns: draw from / empty the returned containers afterwards;
-            # later deals in this process must not be affected (no aliasing of a shared deck)
+                return [dk], {"deck": list(dk)}
+            if h == "hands":
+                rest, hands = self.pu.deal_random_hands(c["nh"], c["nc"])
+                return [rest, hands], {"rest": list(rest), "hands": [list(x) for x in hands]}
+            g = self.gu.new_game(c["n"]) if h == "gin" else (self.ru.deal_new_game() if h == "rummy" else self.ku.deal_new_game())
+            return g, {k: list(v) for k, v in g.items()}
+
+        def values(raw):
+            return [([list(x) if isinstance(x, list) else x for x in v] if isinstance(v, list) else v)
+                    for v in (list(raw.values()) if isinstance(raw, dict) else raw)]
+
+        def consume(raw):
             for v in list(raw.values()) if isinstance(raw, dict) else raw:
                 if isinstance(v, list):
                     for x in v:
                         if isinstance(x, list):
                             del x[:]
                     del v[:max(1, len(v) // 2)]
+
+        out = {}
+        held = None
+        try:
+            if case.get("hold"):
+                # a caller who still holds an earlier deal (a table in play, a deck kept for later) while the next one is
+                # made: the earlier result must stay what it was (the same shuffle is used for both deals)
+                try:
+                    held_raw, _ = deal(case["hold"])
+                    held = (held_raw, values(held_raw))
+                except Exception:
+                    held = None
+            raw, out = deal(case)
+            if held is not None and values(held[0]) != held[1]:
+                out["held_changed"] = "by the next dealing call"
+            # the caller owns what a dealing helper returns: draw from / empty the returned containers afterwards;
+            # later deals in this process must not be affected (no aliasing of a shared deck)
+            consume(raw)
+            if held is not None and "held_changed" not in out and values(held[0]) != held[1]:
+                out["held_changed"] = "when the owner of the next deal drew cards from it"
+            if held is not None:
+                consume(held[0])
         except Exception as e:
             out = {"exc": type(e).__name__ + ": " + str(e)[:80]}
         out["const_ok"] = self.snapshot() == self.const
@@ -383,6 +412,10 @@ class C20(Prop):
         d = self.perm_of(case)
         if not io.get("const_ok"):
             holds = False; why.append("a dealing helper modified the shared deck constants")
+        if io.get("held_changed"):
+            holds = False
+            why.append(f"an earlier deal ({case['hold']['helper']}) still held by its caller was changed {io['held_changed']} "
+                       f"({h}): its hands, up-card and stock are no longer the 52 cards it was dealt")
         if h == "deck":
             if io.get("deck") != d:
                 holds = False; agree = False; why.append("random_deck did not return the shuffled 52 cards")
